@@ -71,6 +71,13 @@ PROPS = {
         required="faithful",
         nontrivial="value with >= 3 nodes and an entity in a converted position, or a storage case",
     ),
+    "C05": dict(
+        domain="world", module="Props.C05",
+        theorems=["C05_invariant", "C05_new_entity_has_no_component", "C05_deletion_purges_everywhere",
+                  "C05_purge_keeps_the_others"],
+        required="spec",
+        nontrivial="an entity owning a component is deleted and its index is reused afterwards",
+    ),
     "C11": dict(
         domain="dispatch", module="Props.C11",
         theorems=["C11_stages_conflict_free", "C11_stages_respect_deps", "C11_staged_exactly_once",
@@ -248,6 +255,13 @@ def world_violation(pid, r):
     if pid == "C03":
         if code in (1, 4) and is_store and stale:
             return "an access through a dead handle did not behave as absent (op %d: %s)" % (pos, wg.NAMES.get(op, op))
+    if pid == "C05":
+        if code == 1 and op in (sg.GET, sg.CONT, sg.MSK, sg.CNT, sg.EMP):
+            return ("component membership differs from the specification after a deletion / creation "
+                    "(op %d: %s): a component survived its entity, was inherited, or another entity lost one" % (
+                        pos, wg.NAMES.get(op, op)))
+        if code == 4 and op in (wg.D, wg.DM, wg.DA, wg.M, wg.ED):
+            return "the values destroyed by a deletion differ from the components of the deleted entities (op %d)" % pos
     if pid == "C04":
         if code == 1 and is_store and not stale:
             return "a storage operation returned something else than the plain map (op %d: %s)" % (pos, wg.NAMES.get(op, op))
@@ -283,6 +297,9 @@ def nontrivial_world(pid, r):
         return False
     if pid == "C04":
         return (sg.REM in codes or sg.DRN in codes) and sg.INS in codes
+    if pid == "C05":
+        has_comp = any(c in (wg.C, wg.CX, wg.EB) and len(p) >= 3 for c, p in r["hist"]) or sg.INS in codes
+        return reuse and has_comp and bool(codes & {wg.D, wg.DM, wg.ED, wg.DA})
     return True
 
 
@@ -293,6 +310,13 @@ def gen_store(pid, tier, seed, scale, rng, hists, stats):
             hists.append(sg.stale_history(rng))
             stats["stale-handle probe matrices"] += 1
         for _ in range((150 if q else 1500) * scale):
+            hists.append(sg.random_store_history(rng, rng.randint(10, 60)))
+            stats["random storage histories"] += 1
+    if pid == "C05":
+        for _ in range((700 if q else 7000) * scale):
+            hists.append(sg.purge_history(rng))
+            stats["purge histories"] += 1
+        for _ in range((100 if q else 1000) * scale):
             hists.append(sg.random_store_history(rng, rng.randint(10, 60)))
             stats["random storage histories"] += 1
     if pid == "C04":
@@ -432,6 +456,8 @@ def check_world(pid, tier, seed):
             diverged.append(r)
     # expected buckets: a dead generator must not go unnoticed
     needs = {"C03": ("Create", "Delete", "Insert", "Get", "GetMut", "Remove", "Entry", "GetMutOrDefault", "Contains"),
+             "C05": ("Create", "Delete", "DeleteMany", "EDelete", "DeleteAll", "Maintain", "CreateDropped", "EBuild",
+                     "Insert", "Get", "Mask", "Register"),
              "C04": ("Insert", "Get", "GetMut", "Remove", "Entry", "Drain", "Clear", "Slice", "Mask", "Count")}
     for need in needs.get(pid, ("Create", "DeleteMany", "EDelete", "Maintain", "ProbeAll", "ECreate")):
         if ophist[need] == 0:
